@@ -505,52 +505,63 @@ func runDisk(c *diskCase, tl *tally) {
 		n, cls, desc := compareAttribution(g, pubList, heldList, lm, nil, rnd)
 		tl.add("disk_attribution_probes", n)
 		tl.add("disk_held_blocks_judged", len(heldList))
-		if cls != "" {
-			// which record is responsible: the assignment of a holder the disk does not show, or the release of one it still shows
-			f := ""
-			liveBy := map[string]bool{}
-			for _, e := range lm.live {
-				liveBy[e.Sub+"|"+e.B.String()] = true
-			}
-			for _, h := range heldList {
-				if !liveBy[h.Sub+"|"+h.B.String()] {
-					if e := lastAssign[h.Sub]; e != nil {
-						f = "assign-record-" + fateOf(e)
-					}
-					break
+		// which records are responsible: the assignment of a holder the disk does not show, the release of one it still shows
+		var classes, descs []string
+		liveBy := map[string]int{}
+		firstAssign := map[string]time.Time{} // earliest assignment record on disk per (subscriber, block)
+		for _, e := range lm.live {
+			liveBy[e.Sub+"|"+e.B.String()]++
+		}
+		for _, r := range recs {
+			if k := r.Sub + "|" + r.B.String(); r.Assign {
+				if t, ok := firstAssign[k]; !ok || r.TS.Before(t) {
+					firstAssign[k] = r.TS
 				}
 			}
-			if f == "" {
-				heldBy := map[string]int{}
-				for _, h := range heldList {
-					heldBy[h.Sub+"|"+h.B.String()]++
+		}
+		heldBy := map[string]int{}
+		for _, h := range heldList {
+			k := h.Sub + "|" + h.B.String()
+			heldBy[k]++
+			if liveBy[k] == 0 {
+				f := "assign-record-unknown"
+				if e := lastAssign[h.Sub]; e != nil {
+					f = "assign-record-" + fateOf(e)
 				}
-				for _, e := range lm.live {
-					if heldBy[e.Sub+"|"+e.B.String()]--; heldBy[e.Sub+"|"+e.B.String()] < 0 { // one open assignment more than the subscriber holds
-						// an open assignment the holder gave back: one of its release records is the one that is not there
-						for _, ev := range events {
-							if !ev.Assign && ev.Sub == e.Sub && ev.B == e.B {
-								if ft := fateOf(ev); ft != "on-disk" || f == "" {
-									f = "release-record-" + ft
-									if ft != "on-disk" {
-										break
-									}
-								}
-							}
-						}
+				classes = append(classes, "log-misses-live-block:"+f)
+				descs = append(descs, fmt.Sprintf("%s holds %s, no open assignment on disk", h.Sub, h.B))
+			}
+		}
+		for k, n := range liveBy {
+			if n <= heldBy[k] {
+				continue
+			}
+			// an open assignment more than the subscriber holds: a release after the earliest assignment on disk is not there
+			f := "release-record-unknown"
+			for _, ev := range events {
+				if !ev.Assign && ev.Sub+"|"+ev.B.String() == k && ev.T.After(firstAssign[k]) {
+					if ft := fateOf(ev); ft != "on-disk" {
+						f = "release-record-" + ft
 						break
 					}
 				}
 			}
+			classes = append(classes, "log-shows-released-block-as-held:"+f)
+			descs = append(descs, fmt.Sprintf("%d open assignment(s) on disk for %s, the subscriber holds %d", n, k, heldBy[k]))
+		}
+		if cls != "" && len(classes) == 0 {
+			classes, descs = append(classes, cls+":unexplained"), append(descs, desc)
+		}
+		for i, full := range classes {
+			if j := strings.Index(full, "lost-in-rotation"); j >= 0 {
+				full = full[j:] // one cause whatever the record and whatever the replay makes of its absence
+			} else if j := strings.Index(full, "lost-at-stop"); j >= 0 {
+				full = full[j:]
+			}
 			rule := "disk-attributes-held-blocks"
-			if !reportedRule[rule+cls+f] {
-				reportedRule[rule+cls+f] = true
-				if i := strings.Index(f, "lost-in-rotation"); i >= 0 {
-					cls, f = "", f[i:] // one cause whatever the record and whatever the replay makes of its absence
-				} else if i := strings.Index(f, "lost-at-stop"); i >= 0 {
-					cls, f = "", f[i:]
-				}
-				sk.report(compDisk, rule, strings.TrimPrefix(cls+":"+f, ":"), fmt.Sprintf("%s: %s; files on disk %v hold %d port-block record(s)", when, desc, view.fileList(), len(recs)))
+			if !reportedRule[rule+full] {
+				reportedRule[rule+full] = true
+				sk.report(compDisk, rule, full, fmt.Sprintf("%s: %s (first differing probe: %s); files on disk %v hold %d port-block record(s)", when, descs[i], desc, view.fileList(), len(recs)))
 			}
 		}
 	}
@@ -882,7 +893,7 @@ func TestDiskA_Scenarios(t *testing.T) {
 
 // TestDiskLifecycles: seeded lifecycles.
 func TestDiskLifecycles(t *testing.T) {
-	n := run.Pick(600, 6000)
+	n := run.Pick(600, 4000)
 	ch := make(chan []*diskCase, 64)
 	go func() {
 		defer close(ch)
